@@ -64,10 +64,13 @@ def main(ctx, replay=None):
         for n in range(nsets):
             settings = {"NT": int(rng.integers(3, 7)), "DT": float(rng.choice([100, 62.5, 250])), "T_MIN": float(rng.choice([0, 150, 300])),
                         "NTV": int(rng.integers(6, 12))}
+            # QHA's own sampling steps (multiples of the grid steps) must not thin out cij's tables: all NT rows, all NTV columns
+            settings["DT_SAMPLE"] = settings["DT"] * int(rng.choice([1, 2, 3]))
             ds = free_dataset(rng, extra_shear=int(rng.integers(0, 5)), settings=settings) if n % 2 == 0 else \
                 system_dataset(rng, exports, str(rng.choice(fillspec.SYSTEMS[1:])), settings=settings)
             d = wd.sub(f"set{n}")
             ds.fit_pressure_window(d)
+            ds.settings["DELTA_P_SAMPLE"] = ds.settings["DELTA_P"] * int(rng.choice([1, 2, 3]))
             try:
                 calc = run(ds.write(d))
             except Exception:
